@@ -39,6 +39,10 @@ impl Drop for Pay {
 type Fat = Arc<HeaderSlice<HeaderWithLength<Pay>, [u64]>>;
 
 enum H {
+    /// slice of payloads
+    S(Arc<[Pay]>),
+    /// union holding its second variant
+    U2(ArcUnion<u64, Pay>),
     A(Arc<Pay>),
     O(OffsetArc<Pay>),
     T(ThinArc<Pay, u64>),
@@ -48,6 +52,7 @@ enum H {
     None,
 }
 unsafe impl Send for H {}
+unsafe impl Sync for H {}
 
 struct Rng(u64);
 impl Rng {
@@ -65,6 +70,11 @@ impl Rng {
 
 fn read(h: &H) -> u64 {
     match h {
+        H::S(s) => s.iter().map(|p| p.sum()).fold(0, u64::wrapping_add),
+        H::U2(u) => match u.as_second() {
+            Some(b) => b.sum(),
+            None => 0,
+        },
         H::A(a) => a.sum(),
         H::O(o) => o.sum(),
         H::T(t) => t.header.header.sum() + t.slice.iter().sum::<u64>(),
@@ -80,6 +90,11 @@ fn read(h: &H) -> u64 {
 
 fn clone_of(h: &H, how: u64) -> H {
     match h {
+        H::S(s) => H::S(s.clone()),
+        H::U2(u) => match how % 2 {
+            0 => H::U2(u.clone()),
+            _ => H::A(u.as_second().unwrap().clone_arc()),
+        },
         H::A(a) => match how % 3 {
             0 => H::A(a.clone()),
             1 => H::A(a.borrow_arc().clone_arc()),
@@ -196,7 +211,10 @@ fn scenario(class: u32, seed: u64) {
     let nthreads = 2 + r.below(2) as usize;
     let kind = r.below(4);
     let before = DROPS.load(Ordering::Relaxed);
+    let kind = if r.below(3) == 0 { 4 + r.below(2) } else { kind };
     let first: H = match kind {
+        4 => H::S((0..3).map(|i| Pay::new(seed + i)).collect::<Vec<_>>().into()),
+        5 => H::U2(ArcUnion::from_second(Arc::new(Pay::new(seed)))),
         0 => H::A(Arc::new(Pay::new(seed))),
         1 => H::O(Arc::into_raw_offset(Arc::new(Pay::new(seed)))),
         2 => H::T(ThinArc::from_header_and_iter(Pay::new(seed), vec![1u64, 2, 3].into_iter())),
@@ -204,6 +222,40 @@ fn scenario(class: u32, seed: u64) {
     };
     // classes that need a plain Arc get one
     let first = if matches!(class, 8 | 9) && !matches!(first, H::A(_) | H::O(_)) { H::A(Arc::new(Pay::new(seed))) } else { first };
+    if r.below(3) == 0 {
+        // all threads work through one handle borrowed by reference (clone through &self)
+        let shared = &first;
+        std::thread::scope(|sc| {
+            for t in 0..nthreads {
+                let mut tr = Rng(seed ^ (t as u64 + 7).wrapping_mul(0x1234_5678_9ABC_DEF1));
+                sc.spawn(move || {
+                    let mut acc = 0u64;
+                    let n = 1 + tr.below(3);
+                    let mut mine: Vec<H> = Vec::new();
+                    for _ in 0..n {
+                        let c = clone_of(shared, tr.next());
+                        acc = acc.wrapping_add(read(&c)).wrapping_add(read(shared));
+                        if tr.below(2) == 0 {
+                            mine.push(c);
+                        }
+                    }
+                    for h in mine {
+                        let mut h = h;
+                        h = step(h, class, &mut tr, &mut acc);
+                        drop(h);
+                    }
+                    std::hint::black_box(acc);
+                });
+            }
+        });
+        drop(first);
+        let after = DROPS.load(Ordering::Relaxed);
+        if after == before {
+            println!("VIOLATION-RECORD\tleak:not-freed\tscenario {} (class {}, shared borrow): no payload was destroyed although every handle was released", seed, class);
+            std::process::exit(3);
+        }
+        return;
+    }
     let mut handles: Vec<H> = Vec::new();
     for i in 1..nthreads {
         handles.push(clone_of(&first, i as u64 * 3));
